@@ -528,10 +528,13 @@ func runCollCase(c *collCase, tape *Tape, out *RunOut) []Violation {
 			} else {
 				v, err = bp.p.Get(id.T.RT())
 			}
-			if mm.tainted(id) {
-				return // an identity of a multi-output constructor was removed: unspecified
-			}
 			p, registered := mm.services[id]
+			if mm.tainted(id) && !(registered && mm.liveFully(p.Reg)) {
+				// an identity of a multi-output constructor was removed: what its sibling outputs
+				// become is unspecified. An identity that is (now) held by another, intact
+				// registration is not in that zone: the removed output must have no effect on it.
+				return
+			}
 			got := -1
 			inst := -1
 			if err == nil {
